@@ -288,6 +288,29 @@ class ModuleInfo:
 
 
 # --------------------------------------------------------------------------------------
+def _load_vocabulary() -> frozenset:
+    path = os.path.join(os.path.dirname(os.path.abspath(__file__)), "vocabulary.txt")
+    try:
+        with open(path) as fh:
+            return frozenset(ln.strip() for ln in fh if ln.strip())
+    except OSError:
+        return frozenset()
+
+
+# names of the functions / methods that existed when the rules were written (the vocabulary the rules may name as atoms).  A function under a name
+# that is NOT in this list is new code -- typically a helper extracted by a refactoring -- and is read in place, exactly like a ``_private`` helper.
+KNOWN_FUNCTION_NAMES = _load_vocabulary()
+
+
+def is_helper_name(name: str) -> bool:
+    """a name the rules cannot have been written against: ``_private`` or not in the vocabulary"""
+    if name.startswith("__"):
+        return False
+    if name.startswith("_"):
+        return True
+    return bool(KNOWN_FUNCTION_NAMES) and name not in KNOWN_FUNCTION_NAMES
+
+
 def dotted(node: ast.AST) -> Optional[str]:
     """``a.b.c`` for Name/Attribute chains, else None."""
     parts = []
